@@ -129,4 +129,4 @@ def run(ck):
               "trigger recorders; after every operation the fetch result, stats() and a full dump taken through the guarded hook (index invariants included) are compared with an executable model. "
               "non-trivial = distinct model states reached" % ((5, 4) if ck.tier == "thorough" else (4, 3)),
               "ops", "states", min_evals=100000,
-              required_nonzero=("hits", "misses_absent", "misses_expired", "rise_killed", "dumps", "frames_built", "sequences", "histories", "page_expectations_checked", "page_scenarios_frame-trigger", "page_scenarios_nothing", "bigtable_rounds"))
+              required_nonzero=("hits", "fetch_partial_outputs", "misses_absent", "misses_expired", "rise_killed", "dumps", "frames_built", "sequences", "histories", "page_expectations_checked", "page_scenarios_frame-trigger", "page_scenarios_nothing", "bigtable_rounds"))
